@@ -823,7 +823,12 @@ def gen_target(r, kind=None) -> dict:
     if kind in ("recipe", "recipe-dyn", "tmpl", "probe"):
         v = r.choice([5, 6, 7, 8, 9, 10])
         subs = r.choice([0, 1, 2, 3]) if kind != "probe" else r.choice([1, 2, 3])
-        t.update(prog=pickle_prog(gen_recipe(r, v, subs, dyn=(kind == "recipe-dyn"))), version=v,
+        prog_ = gen_recipe(r, v, subs, dyn=(kind == "recipe-dyn"))
+        if prog_.subs and r.random() < 0.4:
+            # a routine whose NAME has no ASCII letter or digit (its label stem is empty): whatever stands in for the stem must not come
+            # from process-wide counters
+            prog_.subs[0].name = r.choice(["_", "__", "--", "сумма", "?!"])
+        t.update(prog=pickle_prog(prog_), version=v,
                  assemble=r.random() < 0.3, scratch_slots=r.choice([None, None, True, False]),
                  frame_pointers=r.choice([None, None, False] + ([True] if v >= 8 else [])),
                  other=r.choice([x for x in (6, 7, 8, 9, 10) if x >= v] or [v]))
